@@ -748,12 +748,12 @@ int asn1_bit_string_from_der_ex(int tag, const uint8_t **bits, size_t *nbits, co
 	(*in)++;
 	(*inlen)--;
 
-	// length (min == 2)
+	// length (min == 1: the unused_bits counter alone is the empty bit string)
 	if (asn1_length_from_der(&len, in, inlen) != 1) {
 		error_print();
 		return -1;
 	}
-	if (len < 2) {
+	if (len < 1) {
 		error_print();
 		return -1;
 	}
@@ -761,6 +761,10 @@ int asn1_bit_string_from_der_ex(int tag, const uint8_t **bits, size_t *nbits, co
 	// unused_bits counter
 	unused_bits = **in;
 	if (unused_bits > 7) {
+		error_print();
+		return -1;
+	}
+	if (len == 1 && unused_bits != 0) {
 		error_print();
 		return -1;
 	}
